@@ -546,6 +546,15 @@ for ch in ("A", "W"):
                                                 "DissectQueryMallocExMm", "ComposeQueryMallocExMm", "ComposeQueryCharsRequiredEx", "ResetUri"]],
        inlined=["all of the above"], stubs=["memory manager (ledger stub)"], covers=False, object_bits=12, timeout_s=600, mem_gb=6)
 
+for ch in ("A", "W"):
+    ob(id="DefaultManager.%s.H" % ch, props=["C13", "C19"], route="H", harness="c24_defaultmm.c", char=ch,
+       group="memory == NULL => default manager => C library: forwarders uriDefaultMalloc/Calloc/Free (exact size, zeroed, exact pointer), and uriMakeOwnerMm + uriFreeUriMembersMm end to end on CBMC's allocator model with the memory-leak check on",
+       extra_flags=["--memory-leak-check"], defines={"VSTUB_MEMCPY": 1},
+       unwindset={"uriMakeOwnerEngine%s.*" % ch: 2, "uriPreventLeakage%s.*" % ch: 2, "uriFreeUriMembersMm%s.*" % ch: 2, "memcpy.*": 6},
+       level="B", bounds="blocks of 1..64 bytes / 1..8 elements; a URI with a one-character scheme and a query of 1..4 characters, no path",
+       functions=["uriDefaultMalloc", "uriDefaultCalloc", "uriDefaultFree", "uriMakeOwnerMm" + ch, "uriFreeUriMembersMm" + ch],
+       inlined=["uriMakeOwnerEngine" + ch, "uriMakeRangeOwner" + ch], stubs=["malloc/calloc/free: CBMC's allocator model (malloc may fail)"], covers=False, object_bits=12, timeout_s=600, mem_gb=6)
+
 # ----------------------------------------------------------------------------------------------------------------
 # thin public wrappers: which callee, once, with which arguments and defaults (loop-free => complete)
 WRAPPER_CALLEES = ["AddBaseUriExMm", "RemoveBaseUriMm", "NormalizeSyntaxExMm", "NormalizeSyntaxMaskRequiredEx", "MakeOwnerMm", "FreeUriMembersMm",
@@ -582,13 +591,13 @@ QUICK = {
     "C10": [r"^Wrappers\.A", r"^NullArgs\.A", r"^RemoveBaseUri\."],
     "C11": [r"."],
     "C12": [r"^Watch\.(AddBaseUri|Readers|NormalizeMaskRequired|ComposeQuery)\.A", r"^MakeOwner\.", r"^NormalizeSyntax\.borrowed\.authority\.A", r"^EqualsUri\.A", r"^ToString\.cap\.regname\.A", r"^NormalizeMaskRequired\.authority\.A"],
-    "C13": [r"^Wrappers\.A", r"^NullArgs\.A", r"^ManagerEntry\.A", r"^static\.", r"^FreeUriMembersMm\.A", r"^MakeOwner\.A", r"^DissectQuery\.A", r"^uriMemoryManagerIsComplete", r"^AppendQueryItem\.A", r"^ComposeQueryMalloc\.A"],
+    "C13": [r"^Wrappers\.A", r"^DefaultManager\.A", r"^NullArgs\.A", r"^ManagerEntry\.A", r"^static\.", r"^FreeUriMembersMm\.A", r"^MakeOwner\.A", r"^DissectQuery\.A", r"^uriMemoryManagerIsComplete", r"^AppendQueryItem\.A", r"^ComposeQueryMalloc\.A"],
     "C14": [r"^NullArgs\.A", r"^ManagerEntry\.A", r"^AddBaseUri\.A", r"^MakeOwner\.A", r"^DissectQuery\.A", r"^AppendQueryItem\.A", r"^StopSyntaxMalloc\.A", r"^PushPathSegment\.A", r"^RemoveBaseUri\.A", r"^NormalizeSyntax\.borrowed\.path\.A"],
     "C15": [r"."],
     "C16": [r"^Wrappers\.A", r"^EscapeEx\.A\.N", r"^UnescapeInPlaceEx\.A\.N", r"^EscapeEx\.corner", r"Content\.", r"^EscapeRoundTrip\.", r"^UnescapeTokens\.A"],
     "C17": [r"^Wrappers\.A", r"^ComposeSizes\.", r"^DissectQuery\.", r"^AppendQueryItem\.A", r"^ComposeQuery\.", r"^ComposeQueryMalloc\."],
     "C18": [r"^FilenameRoundTrip", r"^FilenameShortForms\."],
-    "C19": [r"^Wrappers\.W", r"^NullArgs\.W", r"^ManagerEntry\.W", r"^ComposeSizes\.W", r"^Marks\.Parse(UriTail|AuthorityTwo|OwnUserInfo)\.W", r"^ComposeQueryMalloc\.W", r"^EqualsUri\.W", r"^CompareRange\.W", r"^ToString\.cap\..*\.W", r"^MakeOwner\.W", r"^RemoveBaseUri\.W", r"^DissectQuery\.W", r"Content\.W", r"^EscapeRoundTrip\.W",
+    "C19": [r"^Wrappers\.W", r"^DefaultManager\.W", r"^NullArgs\.W", r"^ManagerEntry\.W", r"^ComposeSizes\.W", r"^Marks\.Parse(UriTail|AuthorityTwo|OwnUserInfo)\.W", r"^ComposeQueryMalloc\.W", r"^EqualsUri\.W", r"^CompareRange\.W", r"^ToString\.cap\..*\.W", r"^MakeOwner\.W", r"^RemoveBaseUri\.W", r"^DissectQuery\.W", r"Content\.W", r"^EscapeRoundTrip\.W",
             r"^OnExitHost\.W", r"^NormalizeMaskRequired\..*\.W", r"^Dispatch\.Parse(PctEncoded|UriReference|OwnHost2|IpFuture)\.W", r"^FilenameShortForms\.W"],
     "C20": [r"^static\.", r"^Watch\..*\.A", r"^Watch\.(AddBaseUri|ComposeQuery)\.W", r"^EqualsUri\.A", r"^ToString\.cap\.regname\.A", r"^MakeOwner\.A"],
 }
